@@ -1,9 +1,12 @@
 import OW.Kernels.Basic
 import OW.Kernels.Muskingum
+import OW.Kernels.Lag
+import OW.Kernels.StorageRouting
 /- Kernel models of group FlowRouting (one owner; see /verif/AGENTS.md). Add imports above and entries to `models`. -/
 namespace OW.Kernels.Groups.FlowRouting
 open OW
 
-def models {α} [Num α] : List (KModel α) := [ Kernels.Muskingum.model ]
+def models {α} [Num α] : List (KModel α) :=
+  [ Kernels.Muskingum.model, Kernels.Lag.model, Kernels.StorageRouting.model ]
 
 end OW.Kernels.Groups.FlowRouting
